@@ -326,6 +326,16 @@ class Meth(AV):
         self.recv, self.owner, self.name = recv, owner, name      # owner: ClassRef of the defining class
 
 
+class LocalFn(AV):
+    """a function or lambda defined inside the function being read (a closure over its locals)"""
+
+    def __init__(self, node):
+        self.node = node
+
+    def key(self):
+        return ('LocalFn', id(self.node))
+
+
 class Builtin(AV):
     def __init__(self, name):
         self.name = name
